@@ -28,8 +28,8 @@ const invalidCond = "package-operator.run/Invalid"
 
 // template alphabet
 var templates = map[string]string{
-	"ok":            "apiVersion: verif.example/v1\nkind: Widget\nmetadata:\n  name: out\nspec:\n  x: \"{{ .config.v }}\"\n  second: \"{{ get .config \"w\" | default \"none\" }}\"\n{{ if eq (toString .config.v) \"2\" }}  extra: present\n  list: [a, b]\n{{ else }}  list: [a]\n{{ end }}",
-	"okns":          "apiVersion: verif.example/v1\nkind: Widget\nmetadata:\n  name: out\n  namespace: ns\nspec:\n  x: \"{{ .config.v }}\"\n  second: \"{{ get .config \"w\" | default \"none\" }}\"\n{{ if eq (toString .config.v) \"2\" }}  extra: present\n  list: [a, b]\n{{ else }}  list: [a]\n{{ end }}",
+	"ok":            "apiVersion: verif.example/v1\nkind: Widget\nmetadata:\n  name: out\n  labels:\n    tier: \"t{{ .config.v }}\"\n  annotations:\n    note: \"n{{ .config.v }}\"\nspec:\n  x: \"{{ .config.v }}\"\n  second: \"{{ get .config \"w\" | default \"none\" }}\"\n{{ if eq (toString .config.v) \"2\" }}  extra: present\n  list: [a, b]\n{{ else }}  list: [a]\n{{ end }}",
+	"okns":          "apiVersion: verif.example/v1\nkind: Widget\nmetadata:\n  name: out\n  namespace: ns\n  labels:\n    tier: \"t{{ .config.v }}\"\n  annotations:\n    note: \"n{{ .config.v }}\"\nspec:\n  x: \"{{ .config.v }}\"\n  second: \"{{ get .config \"w\" | default \"none\" }}\"\n{{ if eq (toString .config.v) \"2\" }}  extra: present\n  list: [a, b]\n{{ else }}  list: [a]\n{{ end }}",
 	"needsw":        "apiVersion: verif.example/v1\nkind: Widget\nmetadata:\n  name: out\nspec:\n  x: \"{{ .config.v }}\"\n  second: \"{{ if not (hasKey .config \"w\") }}{{ fail \"the optional value is needed\" }}{{ end }}{{ .config.w }}\"\n  list: [a]\n",
 	"missingkey":    "apiVersion: verif.example/v1\nkind: Widget\nmetadata:\n  name: out\nspec:\n  x: \"{{ .config.nope.deeper }}\"\n",
 	"noparse":       "apiVersion: verif.example/v1\nkind: Widget\nmetadata:\n  name: out\nspec:\n  x: \"{{ .config.v \n",
@@ -271,6 +271,12 @@ func check(sc scenario) func(before *world.World, ev world.Event, pass *world.Pa
 			got, _ := world.Nested(o.Content, "spec")
 			if !reflect.DeepEqual(got, any(want)) {
 				bad("target-stale", "target spec is %v but the template rendered with the current sources (x=%v y=%v) gives %v", got, wantX, wantY, want)
+			}
+			if tmpl != "needsw" {
+				// ... its metadata too: the ok/okns templates render a label and an annotation from the source
+				if l, a := kmodel.Labels(o.Content)["tier"], kmodel.Annotations(o.Content)["note"]; l != "t"+fmt.Sprint(wantX) || a != "n"+fmt.Sprint(wantX) {
+					bad("target-metadata-stale", "target carries label tier=%q and annotation note=%q but the template rendered with the current sources (x=%v) gives %q and %q", l, a, wantX, "t"+fmt.Sprint(wantX), "n"+fmt.Sprint(wantX))
+				}
 			}
 		}
 		if s2 == nil && pass.Result.RequeueAfter <= 0 {
